@@ -383,6 +383,17 @@ def handle (s : St) (line : String) : St :=
   | ["Z", r] =>
     -- forget a replica (it was only built to be compared with its source)
     if r.toNat! < s.reps.size then { s with reps := s.reps.set! r.toNat! none } else s
+  | ["G", r, a, has, ok, same] =>
+    -- point look-ups (`Has`, `Get`) of a known entry against the model's entry map, and C05: what is
+    -- retrievable by hash has the content first seen under that hash
+    match s.rep? r.toNat! with
+    | none => s
+    | some rep =>
+      let m := Model.has rep.log.entries (s.ent a).hash
+      let s := s.count "cmp:lookup"
+      let s := if toString m == has then s else s.diff "has" (toString m) has
+      let s := if toString m == ok then s else s.diff "get" (toString m) ok
+      s.spec "C05" "retrievedIdentical" (same != "differs") s!"replica {r} entry {a}"
   | "EX" :: a :: whatL =>
     let what := " ".intercalate whatL
     -- an entry object read back from the store (or copied) whose links or clock differ from the entry
